@@ -404,6 +404,24 @@ pub fn gen_model(rng: &mut Rng, k: &ModelKnobs) -> MModel {
             }
         }
         m.bias = *rng.pick(&EDGE);
+        if rng.chance(1, 6) {
+            // one string field larger than any I/O buffer
+            let n = rng.range(8000, 20000);
+            let big: String = (0..n).map(|_| *rng.pick(gen::CORE)).collect();
+            match rng.below(3) {
+                0 if !m.dict_model.is_empty() => m.dict_model[0].comment = big,
+                1 if m.tag_models.iter().any(|t| t.tags.iter().any(|c| !c.is_empty())) => {
+                    let t = m.tag_models.iter_mut().find(|t| t.tags.iter().any(|c| !c.is_empty())).unwrap();
+                    let c = t.tags.iter_mut().find(|c| !c.is_empty()).unwrap();
+                    c[0] = big;
+                }
+                _ => {
+                    let w = big.chars().count();
+                    m.dict_model.retain(|d| d.word != big);
+                    m.dict_model.push(MWord { word: big, weights: vec![1; w + 1], comment: String::new() });
+                }
+            }
+        }
     }
     m
 }
